@@ -16,7 +16,9 @@ RULE = ("lists of 0..8 valid Tx/Rx messages (all versions, modulations, NOPE) ap
         "(field equality), parse_msg(i) the i-th / None beyond the end, parse_all(skip,count) == msgs[skip:][:count] "
         "for ALL (skip,count) in ({None}+0..n+2)x({None}+1..n+2); then the file is cut at every offset (files <= 900 "
         "octets) or at all offsets in/around every record header and tail plus sampled body offsets (longer files): "
-        "parse_all() must return exactly the completely written records, random access must agree, nothing raises. "
+        "parse_all() must return exactly the completely written records, random access must agree, nothing raises; generated read sequences on ONE "
+        "reader object (no read may depend on an earlier one); many_records: files with 255..1000 records; aligned_files: a record header placed at "
+        "every offset 2^k-3..2^k+1 (k = 9..17, thorough ..20) by solving for the record mix, reads around and behind it. "
         "Non-trivial: >=2 messages of different record size and >=1 cut inside a record header and inside a body.")
 LEVEL = "exploration"
 ASSUMPTIONS = ["for skip beyond the end both [] and False (the documented range error) are accepted",
@@ -241,6 +243,77 @@ def many_records(ctx, rec):
     return fails
 
 
+def aligned_files(ctx, rec):
+    """files in which a record header starts exactly at, just before or just after a power-of-two offset (block / buffer sizes
+    512..128Ki, thorough up to 1Mi): reads that walk the headers must not depend on where the headers fall"""
+    from harness.core import Failure
+    fails, seen = [], set()
+    tx = {"cls": "tx", "ver": 0, "fn": 10, "tn": 1, "pwr": 7, "bits": bytes(i & 1 for i in range(148))}          # 157 octets per record
+    nope = {"cls": "rx", "ver": 1, "fn": 20, "tn": 2, "rssi": -60, "toa256": 3, "ci": 5, "nope": True, "mod": "GMSK", "soft": None}  # 14
+    rx0 = {"cls": "rx", "ver": 0, "fn": 30, "tn": 3, "rssi": -70, "toa256": -3, "soft": [((i * 3 + ctx.seed) % 255) - 127 for i in range(148)]}  # 159
+    ws = [512, 1024, 4096, 8192, 16384, 32768, 65536, 131072] + ([262144, 524288, 1048576] if ctx.tier == "thorough" else [])
+    for W in ws:
+        for delta in (-3, -2, -1, 0, 1):
+            T = W + delta
+            sol = None
+            for c in range(0, 14):
+                for b in range(0, 157):
+                    rest = T - c * 159 - b * 14
+                    if rest >= 0 and rest % 157 == 0:
+                        sol = (rest // 157, b, c)
+                        break
+                if sol:
+                    break
+            if not sol:
+                continue
+            a, b, c = sol
+            kinds = [tx] * a + [nope] * b + [rx0] * c
+            # interleave deterministically (seed-dependent rotation) so that the sizes are mixed along the file
+            order = sorted(range(len(kinds)), key=lambda i: (i * 7919 + ctx.seed * 31) % max(1, len(kinds)))
+            msgs = [dict(kinds[i], fn=(kinds[i]["fn"] + j) % 2715648) for j, i in enumerate(order)]
+            k = len(msgs)                       # index of the record that starts at T
+            msgs += [dict(tx, fn=777), dict(nope, fn=778), dict(rx0, fn=779), dict(tx, fn=780)]
+            n = len(msgs)
+            ddf = data_dump.DATADumpFile(io.BytesIO())
+            try:
+                ddf.append_all([tk.build_msg(m) for m in msgs])
+                size = ddf.f.seek(0, 2)
+                try:
+                    for idx in sorted(set(i for i in (0, k - 2, k - 1, k, k + 1, k + 2, n - 1, n, n + 1) if i >= 0)):
+                        r = ddf.parse_msg(idx)
+                        if idx < n:
+                            if not same(r, msgs[idx]):
+                                raise Violation("c15:parse_msg:header-at-power-of-two-offset", "parse_msg(%d) != stored message; record %d starts at "
+                                                "offset %d = %d%+d of a %d-octet file" % (idx, k, T, W, delta, size))
+                        elif r is not None:
+                            raise Violation("c15:parse_msg-beyond-end", "parse_msg(%d) of %d returned %r" % (idx, n, r))
+                    for skip in (k - 1, k, k + 1, n - 1):
+                        for count in (None, 1, 3):
+                            r = ddf.parse_all(skip=skip, count=count)
+                            exp = msgs[skip:] if count is None else msgs[skip:][:count]
+                            check_list(r, exp, "parse_all(skip=%r,count=%r):header-at-power-of-two-offset W=%d%+d" % (skip, count, W, delta))
+                    check_list(ddf.parse_all(), msgs, "parse_all():header-at-power-of-two-offset W=%d%+d" % (W, delta))
+                    rec.note({"W": W, "delta": delta}, ["aligned/%d" % W], True, {"n_records": n, "file_len": size, "record_at": T})
+                except Violation as v:
+                    if v.sig not in seen:
+                        seen.add(v.sig)
+                        fails.append(Failure("aligned_files", {"W": W, "delta": delta, "msgs": msgs, "k": k}, v.sig, v.msg))
+            finally:
+                ddf.f.close()
+    return fails
+
+
+def aligned_replay(case):
+    msgs, k = case["msgs"], case["k"]
+    ddf = data_dump.DATADumpFile(io.BytesIO())
+    ddf.append_all([tk.build_msg(m) for m in msgs])
+    for idx in range(max(0, k - 2), len(msgs)):
+        if not same(ddf.parse_msg(idx), msgs[idx]):
+            raise Violation("c15:parse_msg:header-at-power-of-two-offset", "parse_msg(%d) != stored message" % idx)
+    check_list(ddf.parse_all(skip=k), msgs[k:], "parse_all(skip=%d):header-at-power-of-two-offset" % k)
+
+
 SUBS = [Sub("store_read_truncate", strategy=case_st(), oracle=oracle, examples={"quick": 400, "thorough": 12000}),
-        Sub("many_records", fn=many_records)]
+        Sub("many_records", fn=many_records), Sub("aligned_files", fn=aligned_files)]
 SUBS[1].replay = oracle
+SUBS[2].replay = aligned_replay
